@@ -1,6 +1,7 @@
 package checks
 
 import (
+	"sort"
 	"encoding/json"
 	"fmt"
 	"math/rand"
@@ -209,10 +210,26 @@ func smPairs(cases []smCase, n int, seed int64) []smPair {
 	rng := rand.New(rand.NewSource(seed))
 	var inner []int
 	for i, cs := range cases {
-		if cs.Skel == "or" || cs.Skel == "refor" || cs.Skel == "reftor" || cs.Skel == "or2" || cs.Skel == "orvocab" {
+		if cs.Skel == "or" || cs.Skel == "refor" || cs.Skel == "reftor" || cs.Skel == "or2" || strings.HasPrefix(cs.Skel, "orvocab") {
 			inner = append(inner, i)
 		}
 	}
+	// strata: family/skeleton x expected verdict x "the example is null": every third pair is drawn stratum by stratum
+	// (first a stratum, then a case of it), so that small families meet every other family in both orders
+	strata := map[string][]int{}
+	var names []string
+	for i, cs := range cases {
+		if cs.Expect == "unknown" || strings.HasPrefix(cs.Skel, "scaled:") || cs.Skel == "rulekinds" {
+			continue
+		}
+		isNull := cs.V == "null" || strings.HasPrefix(cs.Extra["root"], "null") || strings.Contains(cs.Extra["root"], ": null")
+		k := fmt.Sprintf("%s:%s:%v", cs.Skel, cs.Expect, isNull)
+		if _, ok := strata[k]; !ok {
+			names = append(names, k)
+		}
+		strata[k] = append(strata[k], i)
+	}
+	sort.Strings(names)
 	var out []smPair
 	pick := func(k int) smCase {
 		if k%3 != 2 && len(inner) > 0 {
@@ -222,6 +239,10 @@ func smPairs(cases []smCase, n int, seed int64) []smPair {
 	}
 	for k := 0; len(out) < n && k < 4*n; k++ {
 		a, b := pick(k), pick(k+1)
+		if k%3 == 0 && len(names) > 0 {
+			sa, sb := strata[names[rng.Intn(len(names))]], strata[names[rng.Intn(len(names))]]
+			a, b = cases[sa[rng.Intn(len(sa))]], cases[sb[rng.Intn(len(sb))]]
+		}
 		if a.Expect == "unknown" || b.Expect == "unknown" {
 			continue
 		}
